@@ -1,9 +1,51 @@
 package main
 
 import (
+	"bytes"
 	"encoding/json"
+	"os"
+	"os/exec"
+	"path/filepath"
 	"time"
 )
+
+// execFresh replays a plan in a fresh copy of this worker process and returns its violation.
+func execFresh(p *Plan) *Violation {
+	exe, err := os.Executable()
+	if err != nil {
+		return nil
+	}
+	f, err := os.CreateTemp("", "godsim-min-*.json")
+	if err != nil {
+		return nil
+	}
+	defer os.Remove(f.Name())
+	b, _ := json.Marshal(p)
+	f.Write(b)
+	f.Close()
+	rl := f.Name() + ".race"
+	defer func() {
+		if files, _ := filepath.Glob(rl + ".*"); files != nil {
+			for _, x := range files {
+				os.Remove(x)
+			}
+		}
+	}()
+	cmd := exec.Command(exe, "-replay", f.Name(), "-racelog", rl)
+	cmd.Env = append(os.Environ(), "GORACE=halt_on_error=0 log_path="+rl)
+	var out bytes.Buffer
+	cmd.Stdout = &out
+	cmd.Run()
+	var res struct {
+		Violation *Violation `json:"violation"`
+	}
+	for _, line := range bytes.Split(out.Bytes(), []byte("\n")) {
+		if bytes.HasPrefix(line, []byte("{")) && json.Unmarshal(line, &res) == nil && res.Violation != nil {
+			return res.Violation
+		}
+	}
+	return nil
+}
 
 // variadicOps maps the names of operations whose argument list may be shortened to 1 + the number
 // of leading fixed arguments.
@@ -25,20 +67,22 @@ func inProcessReplayable(v *Violation) bool { return v.Race == "" }
 // singles) from the history and from each reader script, drop faults, then simplify arguments.
 // Bounded by wall-clock and by the number of replays.
 func minimise(w World, p *Plan, v *Violation, budgetS float64) (*Plan, *Violation) {
-	if !inProcessReplayable(v) {
-		q := p.Clone()
-		return q, v
-	}
+	fresh := !inProcessReplayable(v)
 	deadline := time.Now().Add(time.Duration(budgetS * float64(time.Second)))
 	replays := 0
 	class := v.Class()
 	best, bestV := p.Clone(), v
 	try := func(c *Plan) bool {
-		if replays >= 4000 || time.Now().After(deadline) {
+		if replays >= 4000 || (fresh && replays >= 150) || time.Now().After(deadline) {
 			return false
 		}
 		replays++
-		got := w.Exec(c, &RunStats{})
+		var got *Violation
+		if fresh {
+			got = execFresh(c) // the race detector reports each race once per process: replay in a fresh one
+		} else {
+			got = w.Exec(c, &RunStats{})
+		}
 		if got != nil && got.Class() == class {
 			best, bestV = c, got
 			return true
